@@ -11,7 +11,8 @@ Step == l' = l + 1 /\ UNCHANGED bad
 
 TInit == FInit /\ l = 1 /\ bad = 0
 
-TProg == /\ Is("Prog") /\ Step
+\* a section starts with a Prog line (program) or a Scen line (scripted scenario)
+TProg == /\ (Is("Prog") \/ Is("Scen")) /\ Step
          /\ returned' = {} /\ before' = <<>> /\ targets' = <<>> /\ started' = <<>> /\ pairs' = {}
          /\ unrel' = <<>> /\ connNode' = <<>> /\ cancelled' = {}
 
@@ -28,9 +29,9 @@ TNormal ==
   \* "Quiescent" (an invocation that should have returned did not) matches nothing
 
 NextProg(i) ==
-  LET S == {j \in i+1..Len(Trace) : Trace[j].ev = "Prog"}
+  LET S == {j \in i+1..Len(Trace) : Trace[j].ev \in {"Prog", "Scen"}}
   IN IF S = {} THEN Len(Trace) + 1 ELSE CHOOSE j \in S : \A k \in S : j <= k
-TBad == /\ l <= Len(Trace) /\ ~Is("Prog") /\ ~ENABLED TNormal
+TBad == /\ l <= Len(Trace) /\ ~Is("Prog") /\ ~Is("Scen") /\ ~ENABLED TNormal
         /\ PrintT(<<"BAD", l, Ev.t, Ev.ev>>)
         /\ l' = NextProg(l) /\ bad' = bad + 1 /\ UNCHANGED fvars
 
